@@ -511,6 +511,32 @@ func c12run(r *report.Run) {
 			r.Eval(1)
 		}
 	})
+	// (e) many methods: the shared method table crosses its growth thresholds (13, 25, 49, 97 entries); instances
+	// created BEFORE the methods are declared (source order is kept by Eval; one chunk or one Eval per declaration)
+	// and after; every method must be found on both.
+	maxM := 40
+	if thorough {
+		maxM = 130
+	}
+	type mjob struct{ n, mode int }
+	var mjobs []mjob
+	for n := 0; n <= maxM; n++ {
+		for mode := 0; mode < 3; mode++ {
+			mjobs = append(mjobs, mjob{n, mode})
+		}
+	}
+	par.Do(len(mjobs), func(i int) {
+		j := mjobs[i]
+		want, got := c12methods(j.n, j.mode)
+		r.Eval(1)
+		if j.n >= 12 {
+			r.Nontrivial(fmt.Sprintf("methods %d/%d", j.n, j.mode))
+		}
+		if got != want {
+			r.Fail(&report.Case{Kind: "methods", Key: fmt.Sprintf("type with %d methods, mode %d (0: one Eval, early instance first; 1: one Eval per declaration; 2: loaded package)", j.n, j.mode), Input: map[string]int{"n": j.n, "mode": j.mode}, Want: c12diff(want, got), Got: c12diff(got, want)})
+		}
+	})
+	r.Set("method_table_programs", len(mjobs))
 	gres, err := cache.Run(goProgs)
 	validated := 0
 	if err != nil {
@@ -531,6 +557,64 @@ func c12run(r *report.Run) {
 	if r.Expired() {
 		r.NotExhaustive("internal deadline reached")
 	}
+}
+
+// c12methods: a type with n methods; returns expected and observed output.
+func c12methods(n, mode int) (want, got string) {
+	var chunks []string
+	chunks = append(chunks, "import \"fmt\"\ntype T struct {\n\ta int\n\tb string\n}\n")
+	chunks = append(chunks, "early := &T{a: 1}\n")
+	for k := 0; k < n; k++ {
+		chunks = append(chunks, fmt.Sprintf("func (t *T) M%d(x int) int {\n\treturn x + t.a + %d\n}\n", k, k*100))
+	}
+	chunks = append(chunks, "late := &T{a: 2}\n")
+	var calls, w strings.Builder
+	for k := 0; k < n; k++ {
+		fmt.Fprintf(&calls, "fmt.Println(%d, early.M%d(10), late.M%d(10))\n", k, k, k)
+		fmt.Fprintf(&w, "%d %d %d\n", k, 11+k*100, 12+k*100)
+	}
+	calls.WriteString("early.a = 5\nfmt.Println(early.a, late.a)\n")
+	w.WriteString("5 2\n")
+	if n > 0 {
+		fmt.Fprintf(&calls, "g := early.M%d\nfmt.Println(g(1))\n", n-1)
+		fmt.Fprintf(&w, "%d\n", 6+(n-1)*100)
+	}
+	chunks = append(chunks, calls.String())
+	want = w.String()
+	m := goat.New()
+	defer m.Close()
+	imports := map[string]string{}
+	switch mode {
+	case 0:
+		res := m.Eval(nil, strings.Join(chunks, ""), goatlang.WithEvalImports(imports))
+		got = res.Out
+		if res.Failed() {
+			got = res.String()
+		}
+	case 1:
+		for _, c := range chunks {
+			res := m.Eval(nil, c, goatlang.WithEvalImports(imports))
+			got += res.Out
+			if res.Failed() {
+				got += res.String()
+				break
+			}
+		}
+	default:
+		// as a loaded package: instances are necessarily created after the declarations
+		var b strings.Builder
+		b.WriteString("package mm\n\nimport \"fmt\"\n\ntype T struct {\n\ta int\n\tb string\n}\n\n")
+		for k := 0; k < n; k++ {
+			fmt.Fprintf(&b, "func (t *T) M%d(x int) int {\n\treturn x + t.a + %d\n}\n\n", k, k*100)
+		}
+		b.WriteString("func Main() {\n\tearly := &T{a: 1}\n\tlate := &T{a: 2}\n" + c4indent(calls.String()) + "}\n")
+		res := goat.RunMain(map[string]string{"mm/x.go": b.String()}, "mm", "mm.Main")
+		got = res.Out
+		if res.Failed() {
+			got = res.String()
+		}
+	}
+	return want, got
 }
 
 func c12tableSize(F int) int {
@@ -660,6 +744,13 @@ func c12rerun(c *report.Case) (bool, string) {
 			got = res.String()
 		}
 		return got != want, c12diff(got, want)
+	case "methods":
+		var in struct{ N, Mode int }
+		if !remarshal(c.Input, &in) {
+			return false, "bad input"
+		}
+		want, got := c12methods(in.N, in.Mode)
+		return want != got, c12diff(got, want)
 	case "family":
 		var in struct{ N, Pattern int }
 		if !remarshal(c.Input, &in) {
